@@ -277,6 +277,40 @@ func run(c *mon.Ctx) {
 				return
 			}
 		}
+		// the same section carried differently (other pointer_field, other split), same request:
+		// the result follows the new carrier
+		if r.Chance(3) {
+			ptr3 := r.PickInt([]int{0, 1, 5, 9, 40})
+			if ptr3 == ptr {
+				ptr3 = ptr + 3
+			}
+			payload3 := append(ref.PointerPrefix(ptr3), sec...)
+			raw3, _ := ref.Packetise(pmtPid, r.Intn(16), payload3, ref.RandChunks(r, 1+len(payload3)/60), r.Bool())
+			var pkts3 []*packet.Packet
+			for k := range raw3 {
+				q := packet.Packet(raw3[k])
+				pkts3 = append(pkts3, &q)
+			}
+			out3, err3 := psi.FilterPMTPacketsToPids(pkts3, req)
+			c.Count("same_section_other_carrier")
+			want3 := append(ref.PointerPrefix(ptr3), p.SectionWith(func(pid int) bool { return keep[pid] })...)
+			var got3 []byte
+			for k, o := range out3 {
+				hl := 4
+				if raw3[k][3]&0x20 != 0 {
+					hl = 5 + int(raw3[k][4])
+				}
+				if !bytes.Equal(o[:hl], raw3[k][:hl]) {
+					c.Fail("filter:header-differs", "output packet does not carry the header of its input packet (same section, other carrier)", w(""))
+					return
+				}
+				got3 = append(got3, o[hl:]...)
+			}
+			if (err3 != nil) != (len(missing) > 0) || len(got3) < len(want3) || !bytes.Equal(got3[:len(want3)], want3) {
+				c.Fail("filter:same-section-other-carrier", fmt.Sprintf("the same section carried with pointer_field %d (after a call with pointer_field %d and the same request) is not filtered to pointer_field + section (err %v)", ptr3, ptr, err3), w(""))
+				return
+			}
+		}
 		if keepN < len(streamPids) || len(missing) > 0 {
 			kc := "some"
 			if keepN == len(streamPids) {
